@@ -47,9 +47,9 @@ func (fl *fileList) Close() {
 	fl.Sources = nil
 }
 
-// rsync/rsync.h defines chunkSize as 32 * 1024, but increasing it to 256K
-// increases throughput with “tridge” rsync as client by 50 Mbit/s.
-const chunkSize = 256 * 1024
+// rsync/rsync.h defines CHUNK_SIZE as 32 * 1024. Receivers reject longer
+// literal tokens (“invalid uncompressed token length”, rsync/token.c).
+const chunkSize = 32 * 1024
 
 var (
 	lookupOnce      sync.Once
